@@ -117,6 +117,18 @@ macro_rules! impl_parse {
     };
 }
 
+/// Whether the type mentions `_`, which only means something in the `as` of a field.
+pub fn mentions_infer(ty: &syn::Type) -> bool {
+    fn in_tokens(tokens: proc_macro2::TokenStream) -> bool {
+        tokens.into_iter().any(|tt| match tt {
+            proc_macro2::TokenTree::Ident(ident) => ident == "_",
+            proc_macro2::TokenTree::Group(group) => in_tokens(group.stream()),
+            _ => false,
+        })
+    }
+    in_tokens(quote::ToTokens::to_token_stream(ty))
+}
+
 /// Converts a rust identifier to a typescript identifier.
 pub fn to_ts_ident(ident: &Ident) -> String {
     let ident = ident.to_string();
